@@ -12,12 +12,15 @@
      [u8] addition would overflow;
    - loops run on explicit fuel and return [OutOfFuel] when it is exhausted (never happens under
      the table invariant: Proofs/RobinHood.v);
-   - the load test [(len + 1) as f64 > cap as f64 * LOAD_FACTOR] is modelled by the integer test
-     [load_den * (len + 1) > load_num * cap] with LOAD_FACTOR = load_num / load_den re-read from
-     the source on every run (Generated/Constants.v).  The two tests agree for every capacity
-     < 2^50 that is a power of two (every capacity after the first growth) and for the initial
-     capacities 1..16 driven by the correspondence: the product [cap * 0.7] is then within
-     2^-3 of the real number 7*cap/10, whose distance to the nearest integer is 0 or >= 1/10;
+   - the load test [(len + 1) as f64 > cap as f64 * LOAD_FACTOR] is modelled by the exact integer
+     test [load_den * (len + 1) > load_num * cap] with LOAD_FACTOR = load_num / load_den re-read
+     from the source on every run (Generated/Constants.v).  The two tests agree for every
+     power-of-two capacity < 2^50 (every capacity after the first growth is one): the product
+     cap * fl(0.7) is then exact and within cap * 2^-53 < 2^-3 of the real number 7*cap/10, which
+     is at distance >= 1/5 from every integer (5 does not divide 7*2^k), and len + 1 is an
+     integer.  For the initial capacities 1..16 set through the hook the agreement is checked by
+     the correspondence (the moment of growth is visible in the slot order it compares).  The
+     proofs only use load_num < load_den;
    - [fixed : bool] selects [grow]: [true] is the code as it is now (re-insert only occupied
      slots, psl reset to 0), [false] the pinned code (re-insert every slot, ghosts included,
      with its old psl) kept so that its refutation stays checkable. *)
